@@ -155,13 +155,22 @@ def run(ctx):
             ctx.fail("anchor-missing", "R06-guards:" + key, m, "no self-writing block found in %s" % key)
             continue
         covered = set()
+        lossy = []
         for g in guards:
-            covered |= fields_mentioned(g)
+            # a guard establishes agreement of a field only through an accessor that determines the quantity the merge relies on
+            # (the field itself, its length, its element width); `bs.as_slice().len()` (words, not bits), `count_ones()`,
+            # `is_empty()` .. agree for structures of different shape
+            calls = [x for x in subterms(g) if x[0] == "call"]
+            if all(x[1].endswith(("::len", "::element_bits")) for x in calls):
+                covered |= fields_mentioned(g)
+            else:
+                lossy.append(g)
         cf = [f for f in config_fields(ctx, adt) if f not in rng_fields(prog, adt) and f != "phantom"]
         for f in sorted(set(cf) | set(shape_fields)):
             ctx.check(f in covered, "R06-guards", "%s:%s" % (key, f), m,
                       "self.%s == other.%s (possibly through an accessor) is established before the first write" % (f, f),
-                      "%s does not check that `%s` of self and other agree before modifying self (guards found: %s)" % (key.split("::")[-1], f, [fmt(g) for g in guards]))
+                      "%s does not check that `%s` of self and other agree before modifying self (guards found: %s%s)" % (
+                          key.split("::")[-1], f, [fmt(g) for g in guards if g not in lossy], "; compared only through a lossy accessor: %s" % [fmt(g) for g in lossy] if lossy else ""))
         ctx.floor("R06-guards:" + adt.split("::")[-1], len(guards), floor, "symmetric equality guards dominating the first write")
         # other untouched
         ty2 = m.local_ty(2)
